@@ -1281,7 +1281,22 @@ def _copy_of(f, l, target):
         ds = [d for d in f.defs().get(l, []) if d[1] is not None and not f.is_cleanup(d[0])]
         if len(ds) != 1 or ds[0][2]["rv"]["r"] not in ("use", "cast"):
             return False
-        l = op_local(ds[0][2]["rv"]["a"][0])
+        src = op_place(ds[0][2]["rv"]["a"][0])
+        if src is None:
+            return False
+        flds = [e["f"] for e in src.get("p", []) if isinstance(e, dict) and "f" in e]
+        if not src.get("p"):
+            l = src["l"]
+        elif len(flds) == 1 and len(src["p"]) == 1:
+            # `x = tuple.j` with `tuple = (.., y, ..)`: the argument tuple of a closure call
+            ds2 = [d for d in f.defs().get(src["l"], []) if d[1] is not None and not f.is_cleanup(d[0])]
+            if len(ds2) == 1 and ds2[0][2]["rv"]["r"] == "agg" and flds[0] < len(ds2[0][2]["rv"]["a"]) and op_place(ds2[0][2]["rv"]["a"][flds[0]]) is not None \
+                    and not ds2[0][2]["rv"]["a"][flds[0]]["pl"].get("p"):
+                l = ds2[0][2]["rv"]["a"][flds[0]]["pl"]["l"]
+            else:
+                return False
+        else:
+            return False
     return False
 
 
